@@ -1629,6 +1629,80 @@ def extl_part(run, r, runner, n):
             run.mismatch("walls-extended", {"case": c2, "model_case": mlc}, bad, "agreement")
 
 
+def ediff_moving_part(run, r, runner, n):
+    """colvarmodule::energy_difference on restraints whose centres or force constant are MOVING (any schedule, run boundaries,
+    restarts): the value is the closed-form difference at the currently scheduled parameters, the call changes nothing
+    (energy, k, centres, stage, work, TI accumulator), and the rest of the history is the model's history without the call."""
+    cases = []
+    tries = 0
+    while len(cases) < n and tries < 40 * n:
+        tries += 1
+        c = gen_case(r, len(cases))
+        if c["kind"] not in ("harmonic", "linear") or c["mode"] == "none":
+            continue
+        c["ej"] = r.randrange(1, len(c["events"]))
+        if c["mode"] in ("ks", "kl") and r.random() < 0.6:        # aim at the end of a stage
+            t = None
+            for j, (typ, xs) in enumerate(c["events"]):
+                t = c["it0"] if t is None else (t + 1 if typ == "S" else t)
+                if j > 0 and (t - c["it0"]) % c["N"] == 0:
+                    c["ej"] = j
+                    break
+        c["k2"] = r.choice([0.25, 4.0, 1.5])
+        cases.append(c)
+    scn = []
+    for k, c in enumerate(cases):
+        L = scenario(c, k, runner.scratch)
+        pos = [j for j, l in enumerate(L) if l == "rdump"][c["ej"]]
+        L = L[:pos + 1] + ["ediff r forceConstant %r" % c["k2"], "rdump"] + L[pos + 1:]
+        scn += L
+    mlines, ds = [], []
+    for c in cases:
+        ml, d = model_case(c, runner.wallsinit)
+        mlines.append(ml); ds.append(d)
+    rc, mout, e = V.run_lines(runner.model, mlines)
+    rc2, iout, e2 = V.run_lines(runner.unit, scn, cwd=runner.scratch, timeout=900)
+    impl = parse_impl(iout)
+    ed = {}
+    cur = None
+    for l in iout:
+        if l.startswith("echo CASE"):
+            cur = int(l.split()[2])
+        elif l.startswith("EDIFF ") and cur is not None:
+            d_ = parse_fields(l)
+            ed[cur] = (float.fromhex(d_["de"]), d_["err"])
+    for k, c in enumerate(cases):
+        cs = impl.get(k)
+        run.dist("energy_difference:moving:%s:%s" % (c["kind"], c["mode"]))
+        rp = {"kind": "scenario", "case": c, "ediff_after_event": c["ej"], "alternative_k": c["k2"]}
+        if cs is None or not cs["complete"] or len(cs["steps"]) != len(c["events"]) + 1 or k not in ed or any("err=ok" not in l for l in cs["config"]):
+            run.mismatch("energy_difference", {"case": c}, ((cs or {}).get("config", []) + (cs or {}).get("raw", []))[-3:], "complete run")
+            continue
+        j = c["ej"]
+        before, after = cs["steps"][j], cs["steps"][j + 1]
+        steps = cs["steps"][:j + 1] + cs["steps"][j + 2:]
+        after["TI"] = after["TI"] or []
+        same = all(before[f] == after[f] for f in ("K", "C", "ST", "W", "FE", "KI")) and close(before["E"], after["E"]) and not after["TI"] \
+            and all(close(a, b) for a, b in zip(before["F"], after["F"]))
+        if not same:
+            run.violation("energy-difference:state-changed", "%s restraint, schedule %s, energy_difference after event %d (step %d): k/centres/stage/W/FE/forces %r, before the call %r; lines written %r" % (
+                c["kind"], c["mode"], j, before["it"], [after[f] for f in ("K", "C", "ST", "W", "FE", "F")], [before[f] for f in ("K", "C", "ST", "W", "FE", "F")], after["TI"]), rp)
+        de, err = ed[k]
+        xs = c["events"][j][1]
+        E0, _, _ = spec_terms(c, ds[k], fr(before["K"]), before["C"], xs)
+        E1, _, _ = spec_terms(c, ds[k], fr(c["k2"]), before["C"], xs)
+        if err != "ok" or not close(de, float(E1 - E0)):
+            run.violation("energy-difference:value", "%s restraint, schedule %s, step %d, scheduled k %r centres %r, values %r, alternative k %r: energy_difference %r (err %s), closed forms give %r" % (
+                c["kind"], c["mode"], before["it"], before["K"], before["C"], xs, c["k2"], de, err, float(E1 - E0)), rp)
+        c2, isteps, ms, cut = cut_ambiguous(c, steps, parse_model_line(mout[k]) if k < len(mout) else [])
+        bad = compare(c2, ds[k], ms, isteps)
+        if bad:
+            run.mismatch("energy_difference", {"case": c, "model_case": mlines[k]}, bad, "the history without the call")
+        for sig, text in oracle(c2, ds[k], isteps):
+            run.violation(sig, text + " (history with an energy_difference call after event %d)" % j, rp)
+        run.count("ediffm%d" % k, True)
+
+
 def tsf_part(run, runner):
     """timeStepFactor f > 1: the bias is updated every f steps.  Continuous schedules are evaluated at the updated steps
     (and are stale in between, by design); staged schedules test exact step numbers and miss them (recorded finding)."""
@@ -1881,6 +1955,7 @@ def check(run):
     manifold_part(run, r, runner, 60 if quick else 3000)
     kman_part(run, r, runner, 40 if quick else 1500)
     script_part(run, r, runner, 30 if quick else 600)
+    ediff_moving_part(run, r, runner, 40 if quick else 1000)
     traj_part(run, r, runner, 30 if quick else 600)
     badconfig_part(run, runner)
     extl_part(run, r, runner, 30 if quick else 800)
